@@ -44,6 +44,7 @@ unsigned char vo_rawsig[VO_RAWMAX];
 size_t vo_rawsig_len;
 const void *vo_hmac_key;
 int vo_hmac_keylen;
+int vo_hmac_md_owned;
 long vo_live;
 static unsigned char *vo_der_buf;
 
@@ -332,7 +333,11 @@ unsigned char *HMAC(const EVP_MD *evp_md, const void *key, int key_len, const un
 		    unsigned char *md, unsigned int *md_len)
 {
 	unsigned i, n = evp_md == vo_sha256 ? 32 : evp_md == vo_sha384 ? 48 : 64;
-	__CPROVER_assert(evp_md != NULL && md != NULL && md_len != NULL && (key != NULL || key_len == 0), "M4: HMAC arguments");
+	static unsigned char static_md[64];
+	__CPROVER_assert(evp_md != NULL && md_len != NULL && (key != NULL || key_len == 0), "M4: HMAC arguments");
+	vo_hmac_md_owned = md != NULL;
+	if (md == NULL)
+		md = static_md;          /* documented: a static array is used - not thread safe */
 	vo_hmac_calls++;
 	vo_md = evp_md;
 	vo_hmac_key = key;
